@@ -62,7 +62,7 @@ class C15(Check):
     ASSUMPTIONS = ['items of line framing contain no \\n (stated domain of the property)',
                    'frames fit the prefix size (len < 2**(8*prefix_size))']
     ANCHORS = ['rxsci/framing/line.py', 'rxsci/framing/length_prefix.py']
-    REQUIRED_TAGS = ['reentrant-consumer', 'line', 'lp1', 'lp2', 'lp4', 'lp8', 'little', 'big', 'empties', 'trunc',
+    REQUIRED_TAGS = ['reentrant-consumer', 'item-is-a-framed-batch-cut-on-its-record-boundaries', 'line', 'lp1', 'lp2', 'lp4', 'lp8', 'little', 'big', 'empties', 'trunc',
                      'cut-in-prefix', 'cut-in-frame', 'empty-list', 'empty-item', 'stream>64KiB']
 
     _ops = {}
@@ -162,6 +162,23 @@ class C15(Check):
                 cuts = tuple(range(size, len(s), size)) if rng.random() < 0.7 else chunking.random_cuts(rng, len(s), 30)
                 yield self._mk(big, items, cuts, empties=False)
                 continue
+            if k % 150 == 30:
+                # envelopes: an item that is itself a framed batch of large records in the SAME framing, cut on the inner
+                # record boundaries - every chunk but the first then looks like one complete frame while the outer frame is
+                # still pending (records of 64-72 KiB: beyond any "large chunk" shortcut)
+                env = cfgs[1 + 4 + ((k // 150) % 4)]           # prefix 4 or 8, both byte orders
+                recs = [rng.randbytes(rng.choice([65536, 70000, 71000, 72000])) for _ in range(rng.randint(2, 3))]
+                inner = _reference_stream(env, recs)
+                items = [b'head', inner, b'', b'tail'][rng.choice([0, 1]):]
+                s = _reference_stream(env, items)
+                start = s.index(inner)
+                cuts, pos = [], start
+                for r_ in recs:
+                    cuts.append(pos)
+                    pos += env['prefix'] + len(r_)
+                cuts.append(pos)
+                yield dict(self._mk(env, items, tuple(c for c in cuts if 0 < c < len(s)), empties=False), envelope=True)
+                continue
             items = self._rand_items(rng, cfg, 20, 300)
             s = _reference_stream(cfg, items)
             cuts = chunking.random_cuts(rng, len(s), maxcuts=rng.choice([1, 3, 8, 40]))
@@ -190,6 +207,8 @@ class C15(Check):
             out.tags.append('line')
         else:
             out.tags += ['lp%d' % case['prefix'], case['byteorder']]
+        if case.get('envelope'):
+            out.tags.append('item-is-a-framed-batch-cut-on-its-record-boundaries')
         if not items:
             out.tags.append('empty-list')
         if any(len(i) == 0 for i in items):
@@ -249,6 +268,11 @@ class C15(Check):
             return out.fail('unframe-events-after-completion', chunks=chunks)
         if got.out != expected or [type(x) for x in got.out] != [type(x) for x in expected]:
             return out.fail('unframe-mismatch', expected=expected, got=got.out, chunks=chunks)
+        if len(stream) <= 4096:
+            from ..progs import twin_subscriptions
+            t = twin_subscriptions(lambda src: src.pipe(un), chunks, out, 'unframe', lambda xs: list(xs))
+            if t is not None and t != expected:
+                return out.fail('unframe-mismatch-with-two-live-subscribers', expected=expected, got=t, chunks=chunks)
         if len(stream) <= 4096 and expected:
             # A consumer that, while it is handed a frame, runs ANOTHER unframing of the same kind to completion
             # (nested framing, a flat_map over framed payloads): the parse state of the outer subscription must not
